@@ -187,6 +187,32 @@ def Sys.run (S2F : List Char → Except PyErr Nat) (v : Variant) : Sys → List 
       | none => none
       | some (s2, o2) => some (s2, o1 ++ o2)
 
+/-! ### the open system: the link may also hand the host packets that are not (or no longer) the answer to anything -/
+
+/-- every event of the closed system, plus `inject p`: the incoming-packet thread dispatches an arbitrary packet `p` - a
+duplicate of an earlier reply (a request retransmitted on a `needs_resending` link is answered twice), a reply delayed past
+later traffic, or garbage.  Its position in the event list is arbitrary, so every lateness is covered. -/
+inductive EvX
+  | ev (e : Ev)
+  | inject (p : Pkt)
+  deriving DecidableEq, Repr
+
+def Sys.stepX (S2F : List Char → Except PyErr Nat) (v : Variant) (s : Sys) : EvX → Option (Sys × List Out)
+  | .ev e => s.step S2F v e
+  | .inject p =>
+    let (h, o) := rx v s.host p
+    some ({ s with host := h }, o)
+
+def Sys.runX (S2F : List Char → Except PyErr Nat) (v : Variant) : Sys → List EvX → Option (Sys × List Out)
+  | s, [] => some (s, [])
+  | s, e :: es =>
+    match s.stepX S2F v e with
+    | none => none
+    | some (s1, o1) =>
+      match Sys.runX S2F v s1 es with
+      | none => none
+      | some (s2, o2) => some (s2, o1 ++ o2)
+
 /-! ### vocabulary of the property -/
 
 /-- the unsolicited `MISC_VALUE_UPDATED` notifications (`01 id16 value` on the misc channel); every other packet the
@@ -237,6 +263,23 @@ def altRun (v2 : Bool) : Option Pkt → List Obs → Option (Option Pkt)
   | st, o :: os => match altStep v2 st o with
     | none => none
     | some st' => altRun v2 st' os
+
+/-- what the updater compares: the packet carries the index (misc: command and index) the outstanding request armed -/
+def Matches (v2 : Bool) (rq rep : Pkt) : Bool :=
+  lockPatternOf v2 rq == (if rep.chan = 3 then rep.data.take 3 else relPattern v2 rep)
+
+/-- the lock discipline in the open system: a transmission only when nothing is outstanding; a release only while handling a
+packet that `Matches` the outstanding request - so every transmitted request is accepted as answered at most once -/
+def altStepM (v2 : Bool) : Option Pkt → Obs → Option (Option Pkt)
+  | none, .tx p => some (some p)
+  | some r, .rel p => if Matches v2 r p then some none else none
+  | _, _ => none
+
+def altRunM (v2 : Bool) : Option Pkt → List Obs → Option (Option Pkt)
+  | st, [] => some st
+  | st, o :: os => match altStepM v2 st o with
+    | none => none
+    | some st' => altRunM v2 st' os
 
 /-- the k-th delivered reply answers the k-th transmitted request -/
 def answersZip (v2 : Bool) : List Pkt → List Pkt → Bool
